@@ -1234,3 +1234,486 @@ Print Assumptions toy_prefix_safety.
 Print Assumptions toy_worker_first.
 Print Assumptions toy_worker_spins.
 Print Assumptions decompress_len_no_inv_refuted.
+
+(* ===================================================================== *)
+(*            PART 2b : the guarded caller loop (stall guard)            *)
+(* ===================================================================== *)
+Section GuardProofs.
+
+  Variable stage_st : Type.
+  Variable dstep : stage_st -> bytes -> Z -> stage_st * bytes.
+
+  Local Notation dst := (dstate stage_st).
+
+  Lemma worker_loop_g_unfold (fuel : nat) (stalled : Z) (st : dst) (size mb : Z)
+        (sched : list nat) :
+    worker_loop_g dstep fuel stalled st size mb sched =
+    if size >? 0 then
+      match fuel with
+      | O => Err EFuel
+      | S fuel' =>
+        do r <- decompress dstep st (Z.min size mb) (sched_hd st sched);
+        let '(st', tmp) := r in
+        let rem := if zlen tmp >? 0 then size - zlen tmp else size in
+        do stalled' <- (if zlen tmp >? 0 then Ok 0
+                        else if consumed st' =? consumed st then
+                               (if stalled + 1 >? max_stalled_rounds then Err EBad7z
+                                else Ok (stalled + 1))
+                             else Ok stalled);
+        if rem <=? 0 then Ok (st', tmp)
+        else
+          do r' <- worker_loop_g dstep fuel' stalled' st' rem mb (tl sched);
+          let '(st'', out) := r' in
+          Ok (st'', tmp ++ out)
+      end
+    else Ok (st, []).
+  Proof. destruct fuel; reflexivity. Qed.
+
+  (* ---- (1) an Ok of the guarded loop is the same Ok of the unguarded loop -- *)
+  Lemma worker_g_ok_unguarded (fuel : nat) :
+    forall (stalled : Z) (st : dst) (size mb : Z) (sched : list nat) (r : dst * bytes),
+      worker_loop_g dstep fuel stalled st size mb sched = Ok r ->
+      worker_decompress dstep fuel st size mb sched = Ok r.
+  Proof.
+    induction fuel as [|fuel IH]; intros stalled st size mb sched r H;
+      rewrite worker_loop_g_unfold in H; rewrite worker_unfold;
+      (destruct (size >? 0); [|exact H]); [discriminate|].
+    destruct (decompress dstep st (Z.min size mb) (sched_hd st sched)) as [[st1 tmp]|e];
+      simpl in H |- *; [|discriminate].
+    destruct (zlen tmp >? 0).
+    - simpl in H. destruct (size - zlen tmp <=? 0); [exact H|].
+      destruct (worker_loop_g dstep fuel 0 st1 (size - zlen tmp) mb (tl sched))
+        as [[st2 o]|e] eqn:Hw; simpl in H; [|discriminate].
+      rewrite (IH _ _ _ _ _ _ Hw). simpl. exact H.
+    - destruct (size <=? 0) eqn:Er.
+      + destruct (consumed st1 =? consumed st);
+          [destruct (stalled + 1 >? max_stalled_rounds); [discriminate|]|];
+          simpl in H; exact H.
+      + destruct (consumed st1 =? consumed st);
+          [destruct (stalled + 1 >? max_stalled_rounds); [discriminate|]|];
+          simpl in H.
+        * destruct (worker_loop_g dstep fuel (stalled + 1) st1 size mb (tl sched))
+            as [[st2 o]|e] eqn:Hw; simpl in H; [|discriminate].
+          rewrite (IH _ _ _ _ _ _ Hw). simpl. exact H.
+        * destruct (worker_loop_g dstep fuel stalled st1 size mb (tl sched))
+            as [[st2 o]|e] eqn:Hw; simpl in H; [|discriminate].
+          rewrite (IH _ _ _ _ _ _ Hw). simpl. exact H.
+  Qed.
+
+  Theorem worker_g_len (L0 : Z) (fuel : nat) (st st' : dst) (size mb : Z)
+          (sched : list nat) (out : bytes) :
+    book_inv L0 st -> 0 <= size -> 0 < mb ->
+    worker_decompress_g dstep fuel st size mb sched = Ok (st', out) ->
+    zlen out = size /\ book_inv L0 st'.
+  Proof.
+    intros Hinv Hsz Hmb H. apply worker_g_ok_unguarded in H.
+    exact (worker_len stage_st dstep L0 fuel st st' size mb sched out Hinv Hsz Hmb H).
+  Qed.
+
+  Section GContract.
+    Variable D : stage_st -> bytes -> bytes.
+    Hypothesis D_mono : forall s0 a b, prefix (D s0 a) (D s0 (a ++ b)).
+    Hypothesis stage_safe : forall s0 s cin cout,
+        reach dstep s0 s cin cout -> prefix cout (D s0 cin).
+
+    Theorem worker_g_next (s0s : list stage_st) (P0 : bytes) (fuel : nat) (st st' : dst)
+            (size mb : Z) (sched : list nat) (acc out : bytes) :
+      safe_state dstep s0s P0 st acc -> 0 <= size -> 0 < mb ->
+      worker_decompress_g dstep fuel st size mb sched = Ok (st', out) ->
+      safe_state dstep s0s P0 st' (acc ++ out) /\
+      zlen out = size /\
+      out = firstn (Z.to_nat size)
+                   (skipn (length acc)
+                          (Dchain D s0s (firstn (Z.to_nat (input_size st)) P0))).
+    Proof.
+      intros Hs Hsz Hmb H. apply worker_g_ok_unguarded in H.
+      exact (worker_next stage_st dstep D D_mono stage_safe s0s P0 fuel st st' size mb
+                         sched acc out Hs Hsz Hmb H).
+    Qed.
+
+    Theorem worker_g_first (fuel : nat) (st st' : dst) (size mb : Z)
+            (sched : list nat) (out : bytes) :
+      fresh st -> 0 <= size -> 0 < mb ->
+      worker_decompress_g dstep fuel st size mb sched = Ok (st', out) ->
+      zlen out = size /\
+      out = firstn (Z.to_nat size) (Dchain D (stages st) (packed_of st)).
+    Proof.
+      intros Hf Hsz Hmb H. apply worker_g_ok_unguarded in H.
+      exact (worker_first stage_st dstep D D_mono stage_safe fuel st st' size mb
+                          sched out Hf Hsz Hmb H).
+    Qed.
+  End GContract.
+
+  (* ---- (3) agreement with the unguarded loop ------------------------------ *)
+  (* the guard can only turn a result into Err EBad7z *)
+  Theorem worker_g_agrees (fuel : nat) :
+    forall (stalled : Z) (st : dst) (size mb : Z) (sched : list nat) (r : dst * bytes),
+      worker_decompress dstep fuel st size mb sched = Ok r ->
+      worker_loop_g dstep fuel stalled st size mb sched = Ok r \/
+      worker_loop_g dstep fuel stalled st size mb sched = Err EBad7z.
+  Proof.
+    induction fuel as [|fuel IH]; intros stalled st size mb sched r H;
+      rewrite worker_unfold in H; rewrite worker_loop_g_unfold;
+      (destruct (size >? 0); [|left; exact H]); [discriminate|].
+    destruct (decompress dstep st (Z.min size mb) (sched_hd st sched)) as [[st1 tmp]|e];
+      simpl in H |- *; [|discriminate].
+    destruct (zlen tmp >? 0).
+    - simpl. destruct (size - zlen tmp <=? 0); [left; exact H|].
+      destruct (worker_decompress dstep fuel st1 (size - zlen tmp) mb (tl sched))
+        as [[st2 o]|e] eqn:Hw; simpl in H; [|discriminate].
+      destruct (IH 0 _ _ _ _ _ Hw) as [Hg|Hg]; rewrite Hg; simpl; [left; exact H|right; reflexivity].
+    - destruct (size <=? 0) eqn:Er.
+      + destruct (consumed st1 =? consumed st);
+          [destruct (stalled + 1 >? max_stalled_rounds); [right; reflexivity|]|];
+          simpl; left; exact H.
+      + destruct (worker_decompress dstep fuel st1 size mb (tl sched))
+          as [[st2 o]|e] eqn:Hw; simpl in H; [|discriminate].
+        destruct (consumed st1 =? consumed st);
+          [destruct (stalled + 1 >? max_stalled_rounds); [right; reflexivity|]|];
+          simpl.
+        * destruct (IH (stalled + 1) _ _ _ _ _ Hw) as [Hg|Hg]; rewrite Hg; simpl;
+            [left; exact H|right; reflexivity].
+        * destruct (IH stalled _ _ _ _ _ Hw) as [Hg|Hg]; rewrite Hg; simpl;
+            [left; exact H|right; reflexivity].
+  Qed.
+
+  Lemma worker_stall_max_unfold (fuel : nat) (stalled : Z) (st : dst) (size mb : Z)
+        (sched : list nat) :
+    worker_stall_max dstep fuel stalled st size mb sched =
+    if size >? 0 then
+      match fuel with
+      | O => stalled
+      | S fuel' =>
+        match decompress dstep st (Z.min size mb) (sched_hd st sched) with
+        | Err _ => stalled
+        | Ok (st', tmp) =>
+          let rem := if zlen tmp >? 0 then size - zlen tmp else size in
+          let stalled' := if zlen tmp >? 0 then 0
+                          else if consumed st' =? consumed st then stalled + 1 else stalled in
+          if rem <=? 0 then Z.max stalled stalled'
+          else Z.max stalled (worker_stall_max dstep fuel' stalled' st' rem mb (tl sched))
+        end
+      end
+    else stalled.
+  Proof. destruct fuel; reflexivity. Qed.
+
+  Lemma worker_stall_max_ge (fuel : nat) :
+    forall (stalled : Z) (st : dst) (size mb : Z) (sched : list nat),
+      stalled <= worker_stall_max dstep fuel stalled st size mb sched.
+  Proof.
+    destruct fuel as [|fuel]; intros stalled st size mb sched;
+      rewrite worker_stall_max_unfold; destruct (size >? 0); try lia.
+    destruct (decompress dstep st (Z.min size mb) (sched_hd st sched)) as [[st1 tmp]|e];
+      [|lia].
+    cbv zeta. destruct (_ <=? 0); lia.
+  Qed.
+
+  (* if the stalled counter of the unguarded run never exceeds 16, the guarded
+     loop returns the very same Ok *)
+  Theorem worker_g_agrees_max (fuel : nat) :
+    forall (stalled : Z) (st : dst) (size mb : Z) (sched : list nat) (r : dst * bytes),
+      worker_decompress dstep fuel st size mb sched = Ok r ->
+      worker_stall_max dstep fuel stalled st size mb sched <= max_stalled_rounds ->
+      worker_loop_g dstep fuel stalled st size mb sched = Ok r.
+  Proof.
+    induction fuel as [|fuel IH]; intros stalled st size mb sched r H Hmax;
+      rewrite worker_unfold in H; rewrite worker_loop_g_unfold;
+      rewrite worker_stall_max_unfold in Hmax;
+      (destruct (size >? 0); [|exact H]); [discriminate|].
+    destruct (decompress dstep st (Z.min size mb) (sched_hd st sched)) as [[st1 tmp]|e];
+      simpl in H |- *; [|discriminate].
+    cbv zeta in Hmax.
+    destruct (zlen tmp >? 0).
+    - simpl. destruct (size - zlen tmp <=? 0); [exact H|].
+      destruct (worker_decompress dstep fuel st1 (size - zlen tmp) mb (tl sched))
+        as [[st2 o]|e] eqn:Hw; simpl in H; [|discriminate].
+      rewrite (IH 0 _ _ _ _ _ Hw) by lia. simpl. exact H.
+    - destruct (size <=? 0) eqn:Er.
+      + destruct (consumed st1 =? consumed st).
+        * destruct (stalled + 1 >? max_stalled_rounds) eqn:Eg;
+            [apply Z.gtb_lt in Eg; lia|]. simpl. exact H.
+        * simpl. exact H.
+      + destruct (worker_decompress dstep fuel st1 size mb (tl sched))
+          as [[st2 o]|e] eqn:Hw; simpl in H; [|discriminate].
+        destruct (consumed st1 =? consumed st).
+        * pose proof (worker_stall_max_ge fuel (stalled + 1) st1 size mb (tl sched)) as Hge.
+          destruct (stalled + 1 >? max_stalled_rounds) eqn:Eg;
+            [apply Z.gtb_lt in Eg; lia|]. simpl.
+          rewrite (IH (stalled + 1) _ _ _ _ _ Hw) by lia. simpl. exact H.
+        * simpl.
+          rewrite (IH stalled _ _ _ _ _ Hw) by lia. simpl. exact H.
+  Qed.
+
+  Corollary worker_g_agrees_top (fuel : nat) (st : dst) (size mb : Z) (sched : list nat)
+            (r : dst * bytes) :
+    worker_decompress dstep fuel st size mb sched = Ok r ->
+    worker_stall_max dstep fuel 0 st size mb sched <= 16 ->
+    worker_decompress_g dstep fuel st size mb sched = Ok r.
+  Proof. intros H Hm. exact (worker_g_agrees_max fuel 0 st size mb sched r H Hm). Qed.
+
+  (* ---- (2) termination: no stage contract, no schedule condition ---------- *)
+  Lemma g_chain_run_no_fuel (ss : list stage_st) :
+    forall up us data ml, chain_run dstep ss up us data ml <> Err EFuel.
+  Proof.
+    induction ss as [|s ss IH]; intros up us data ml H; simpl in H; [discriminate|].
+    destruct up as [|u up]; [discriminate|]. destruct us as [|z us]; [discriminate|].
+    destruct (u <? z).
+    - destruct (dstep s data ml) as [s1 o].
+      destruct (chain_run dstep ss up us o ml) as [[[ss2 up2] d]|e] eqn:E;
+        simpl in H; [discriminate|].
+      injection H as ->. exact (IH _ _ _ _ E).
+    - destruct (zlen data =? 0); [|discriminate].
+      destruct (chain_run dstep ss up us [] ml) as [[[ss2 up2] d]|e] eqn:E;
+        simpl in H; [discriminate|].
+      injection H as ->. exact (IH _ _ _ _ E).
+  Qed.
+
+  Lemma g_run_chain_no_fuel (st : dst) (data : bytes) (ml : Z) :
+    run_chain dstep st data ml <> Err EFuel.
+  Proof.
+    unfold run_chain. intros H.
+    destruct (chain_run dstep (stages st) (unpacked st) (unpacksizes st) data ml)
+      as [[[ss up] o]|e] eqn:E; simpl in H; [discriminate|].
+    injection H as ->. exact (g_chain_run_no_fuel _ _ _ _ _ E).
+  Qed.
+
+  Lemma g_decompress_no_fuel (st : dst) (ml : Z) (rd : nat) :
+    decompress dstep st ml rd <> Err EFuel.
+  Proof.
+    unfold decompress. intros H.
+    destruct (ml <? 0).
+    - destruct (read_data st rd) as [st1 data].
+      destruct (run_chain dstep st1 (unused st1 ++ data) ml) as [[st2 tmp]|e] eqn:E;
+        simpl in H; [discriminate|].
+      injection H as ->. exact (g_run_chain_no_fuel _ _ _ E).
+    - destruct (zlen (buf st) - pos st >=? ml); [discriminate|].
+      destruct (read_data st rd) as [st1 data].
+      destruct (zlen (unused st1) >? 0).
+      + destruct (run_chain dstep st1 (unused st1 ++ data) ml) as [[st2 tmp]|e] eqn:E;
+          simpl in H.
+        * destruct (_ <=? ml); discriminate.
+        * injection H as ->. exact (g_run_chain_no_fuel _ _ _ E).
+      + destruct (run_chain dstep st1 data ml) as [[st2 tmp]|e] eqn:E; simpl in H.
+        * destruct (_ <=? ml); discriminate.
+        * injection H as ->. exact (g_run_chain_no_fuel _ _ _ E).
+  Qed.
+
+  (* what a call does to the file and to [consumed]; no invariant needed *)
+  Lemma g_decompress_io (st st' : dst) (ml : Z) (rd : nat) (out : bytes) :
+    decompress dstep st ml rd = Ok (st', out) ->
+    exists data, fp_rest st = data ++ fp_rest st' /\
+                 consumed st' = consumed st + zlen data.
+  Proof.
+    unfold decompress. intros H.
+    destruct (ml <? 0).
+    - destruct (read_data st rd) as [st1 data] eqn:Hrd.
+      apply read_data_spec in Hrd.
+      destruct Hrd as (_ & _ & _ & _ & _ & _ & _ & _ & R9 & R10 & _).
+      destruct (run_chain dstep st1 (unused st1 ++ data) ml) as [[st2 tmp]|e] eqn:E;
+        simpl in H; [|discriminate].
+      apply run_chain_spec in E. destruct E as (_ & _ & C3 & _ & _ & _ & _ & _ & C9).
+      injection H as <- _. simpl. exists data. rewrite C9, C3. split; assumption.
+    - destruct (zlen (buf st) - pos st >=? ml).
+      + injection H as <- _. simpl. exists []. rewrite zlen_nil. split; [reflexivity|lia].
+      + destruct (read_data st rd) as [st1 data] eqn:Hrd.
+        apply read_data_spec in Hrd.
+        destruct Hrd as (_ & _ & _ & _ & _ & _ & _ & _ & R9 & R10 & _).
+        assert (Hgoal : forall st2 tmp,
+                   fp_rest st2 = fp_rest st1 -> consumed st2 = consumed st1 ->
+                   (if zlen (buf st) - pos st + zlen tmp <=? ml
+                    then Ok (set_buf st2 (unused st2) [] 0, py_from (buf st2) (pos st2) ++ tmp)
+                    else Ok (set_buf st2 (unused st2)
+                                     (py_from tmp (ml - (zlen (buf st) - pos st))) 0,
+                             py_from (buf st2) (pos st2) ++
+                             py_to tmp (ml - (zlen (buf st) - pos st)))) = Ok (st', out) ->
+                   exists data0, fp_rest st = data0 ++ fp_rest st' /\
+                                 consumed st' = consumed st + zlen data0).
+        { intros st2 tmp Hf Hc H2.
+          destruct (_ <=? ml); injection H2 as <- _; simpl; exists data;
+            rewrite Hf, Hc; split; assumption. }
+        destruct (zlen (unused st1) >? 0).
+        * destruct (run_chain dstep st1 (unused st1 ++ data) ml) as [[st2 tmp]|e] eqn:E;
+            simpl in H; [|discriminate].
+          apply run_chain_spec in E. destruct E as (_ & _ & C3 & _ & _ & _ & _ & _ & C9).
+          eapply Hgoal; [| |exact H]; simpl; assumption.
+        * destruct (run_chain dstep st1 data ml) as [[st2 tmp]|e] eqn:E;
+            simpl in H; [|discriminate].
+          apply run_chain_spec in E. destruct E as (_ & _ & C3 & _ & _ & _ & _ & _ & C9).
+          eapply Hgoal; [| |exact H]; assumption.
+  Qed.
+
+  (* measure: 17 * owed bytes + unread file bytes + (17 - stalled) *)
+  Lemma worker_loop_g_terminates (fuel : nat) :
+    forall (stalled : Z) (st : dst) (size mb : Z) (sched : list nat),
+      stalled <= max_stalled_rounds ->
+      (17 * Z.to_nat size + length (fp_rest st) + Z.to_nat (17 - stalled) <= fuel)%nat ->
+      worker_loop_g dstep fuel stalled st size mb sched <> Err EFuel.
+  Proof.
+    unfold max_stalled_rounds.
+    induction fuel as [|fuel IH]; intros stalled st size mb sched Hs Hf;
+      rewrite worker_loop_g_unfold;
+      (destruct (size >? 0) eqn:Esz; [|discriminate]); apply Z.gtb_lt in Esz; [lia|].
+    destruct (decompress dstep st (Z.min size mb) (sched_hd st sched)) as [[st1 tmp]|e] eqn:Hd.
+    2:{ simpl. intros H. injection H as ->. exact (g_decompress_no_fuel _ _ _ Hd). }
+    simpl. destruct (g_decompress_io _ _ _ _ _ Hd) as (data & Hfp & Hcons).
+    assert (Hlen : (length (fp_rest st) = length data + length (fp_rest st1))%nat)
+      by (rewrite Hfp, app_length; reflexivity).
+    assert (Hrec : forall stalled' rem,
+               stalled' <= 16 ->
+               (17 * Z.to_nat rem + length (fp_rest st1) + Z.to_nat (17 - stalled') <= fuel)%nat ->
+               (do r' <- worker_loop_g dstep fuel stalled' st1 rem mb (tl sched);
+                let '(st'', out) := r' in Ok (st'', tmp ++ out)) <> Err EFuel).
+    { intros s' rem Hs' Hf' H.
+      destruct (worker_loop_g dstep fuel s' st1 rem mb (tl sched)) as [[st2 o]|e] eqn:Hw;
+        simpl in H; [discriminate|].
+      injection H as ->. exact (IH _ _ _ _ _ Hs' Hf' Hw). }
+    destruct (zlen tmp >? 0) eqn:Et.
+    - apply Z.gtb_lt in Et. simpl.
+      destruct (size - zlen tmp <=? 0) eqn:Er; [discriminate|]. apply Z.leb_gt in Er.
+      apply Hrec; lia.
+    - destruct (consumed st1 =? consumed st) eqn:Ec.
+      + destruct (stalled + 1 >? max_stalled_rounds) eqn:Eg; [discriminate|].
+        unfold max_stalled_rounds in Eg.
+        assert (stalled + 1 <= 16) by (destruct (Z.gtb_spec (stalled + 1) 16); [discriminate|lia]).
+        simpl. destruct (size <=? 0); [discriminate|]. apply Hrec; lia.
+      + apply Z.eqb_neq in Ec. simpl. destruct (size <=? 0); [discriminate|].
+        assert (0 < zlen data) by (pose proof (zlen_nonneg data); lia).
+        unfold zlen in *. apply Hrec; lia.
+  Qed.
+
+  Theorem worker_g_terminates (fuel : nat) (st : dst) (size mb : Z) (sched : list nat) :
+    (17 * Z.to_nat size + length (fp_rest st) + 17 <= fuel)%nat ->
+    worker_decompress_g dstep fuel st size mb sched <> Err EFuel.
+  Proof.
+    intros Hf. unfold worker_decompress_g.
+    apply worker_loop_g_terminates; [unfold max_stalled_rounds; lia|].
+    change (Z.to_nat (17 - 0)) with 17%nat. exact Hf.
+  Qed.
+
+  Corollary worker_g_terminates_18 (fuel : nat) (st : dst) (size mb : Z) (sched : list nat) :
+    (18 * (Z.to_nat size + length (fp_rest st) + 1) <= fuel)%nat ->
+    worker_decompress_g dstep fuel st size mb sched <> Err EFuel.
+  Proof. intros Hf. apply worker_g_terminates. lia. Qed.
+
+  (* ---- the former hang is now detected -------------------------------------- *)
+  Section GSpin.
+    Variable quiet : stage_st -> Prop.
+    Hypothesis quiet_step : forall s ml,
+        quiet s -> snd (dstep s [] ml) = [] /\ quiet (fst (dstep s [] ml)).
+
+    Theorem worker_g_detects_eof (fuel : nat) :
+      forall (stalled : Z) (st : dst) (size mb : Z) (sched : list nat),
+        stuck quiet st -> fp_rest st = [] -> 0 < size -> 0 < mb ->
+        stalled <= max_stalled_rounds ->
+        (Z.to_nat (17 - stalled) <= fuel)%nat ->
+        worker_loop_g dstep fuel stalled st size mb sched = Err EBad7z.
+    Proof.
+      unfold max_stalled_rounds.
+      induction fuel as [|fuel IH]; intros stalled st size mb sched Hst Hfp Hsz Hmb Hs Hf;
+        [lia|].
+      rewrite worker_loop_g_unfold.
+      destruct (size >? 0) eqn:E; [|destruct (Z.gtb_spec size 0); [discriminate|lia]].
+      destruct (stuck_step stage_st dstep quiet quiet_step st (Z.min size mb)
+                           (sched_hd st sched) Hst ltac:(lia)) as (st1 & Hd & Hst1).
+      rewrite Hd. simpl.
+      destruct (g_decompress_io _ _ _ _ _ Hd) as (data & Hio & Hc).
+      rewrite Hfp in Hio. symmetry in Hio. apply app_eq_nil in Hio. destruct Hio as (-> & Hfp1).
+      rewrite zlen_nil, Z.add_0_r in Hc. rewrite Hc, Z.eqb_refl.
+      change (zlen [] >? 0) with false. cbv iota.
+      destruct (stalled + 1 >? max_stalled_rounds) eqn:Eg; [reflexivity|].
+      unfold max_stalled_rounds in Eg.
+      assert (stalled + 1 <= 16) by (destruct (Z.gtb_spec (stalled + 1) 16); [discriminate|lia]).
+      simpl. destruct (size <=? 0) eqn:E2; [apply Z.leb_le in E2; lia|].
+      rewrite (IH (stalled + 1) st1 size mb (tl sched) Hst1 Hfp1 Hsz Hmb); [reflexivity|lia|lia].
+    Qed.
+  End GSpin.
+
+End GuardProofs.
+
+(* ---- toy instances and examples -------------------------------------------- *)
+Theorem toy_worker_g_first (fuel : nat) (st st' : dstate toy_state) (size mb : Z)
+        (sched : list nat) (out : bytes) :
+  fresh st -> 0 <= size -> 0 < mb ->
+  worker_decompress_g toy_dstep fuel st size mb sched = Ok (st', out) ->
+  zlen out = size /\
+  out = firstn (Z.to_nat size) (Dchain toy_D (stages st) (packed_of st)).
+Proof.
+  exact (worker_g_first toy_state toy_dstep toy_D toy_D_mono toy_stage_safe
+                        fuel st st' size mb sched out).
+Qed.
+
+(* the former spin witness (declared unpack size 10, stream holds 3 bytes):
+   1 delivering round + 17 stalled rounds, then Bad7zFile *)
+Theorem toy_worker_g_detects (fuel : nat) :
+  toy_worker_g (18 + fuel) [toy_st 0 0 []] [10] 3 100 [1; 2; 3] 10 100 [] = Err EBad7z.
+Proof.
+  unfold toy_worker_g, toy_init, worker_decompress_g.
+  change (18 + fuel)%nat with (S (17 + fuel)).
+  assert (Hn : (17 <= 17 + fuel)%nat) by lia.
+  generalize dependent (17 + fuel)%nat. intros n Hn.
+  rewrite worker_loop_g_unfold.
+  change (10 >? 0) with true. cbv iota.
+  set (st0 := init_state [toy_st 0 0 []] [10] 3 100 [1; 2; 3]).
+  set (st1 := mkD [toy_st 0 0 []] [3] [10] 3 3 100 [] [] 0 []).
+  assert (Hd : decompress toy_dstep st0 (Z.min 10 100) (sched_hd st0 []) = Ok (st1, [1; 2; 3]))
+    by (vm_compute; reflexivity).
+  rewrite Hd. simpl bind. cbv iota beta.
+  change (zlen [1; 2; 3] >? 0) with true. cbv iota zeta. simpl bind.
+  change (10 - zlen [1; 2; 3] <=? 0) with false. cbv iota.
+  rewrite (worker_g_detects_eof toy_state toy_dstep (fun s => fst (fst s) = 0)).
+  - reflexivity.
+  - intros [[t k] p] ml Ht. simpl in Ht. subst t. simpl. split; reflexivity.
+  - unfold stuck, st1; simpl. repeat split; auto.
+  - reflexivity.
+  - reflexivity.
+  - reflexivity.
+  - unfold max_stalled_rounds. lia.
+  - change (Z.to_nat (17 - 0)) with 17%nat. exact Hn.
+Qed.
+
+Example toy_worker_g_spin_fuel17 :
+  toy_worker_g 17 [toy_st 0 0 []] [10] 3 100 [1; 2; 3] 10 100 [] = Err EFuel.
+Proof. vm_compute. reflexivity. Qed.
+
+Example toy_worker_g_spin_fuel18 :
+  toy_worker_g 18 [toy_st 0 0 []] [10] 3 100 [1; 2; 3] 10 100 [] = Err EBad7z.
+Proof. vm_compute. reflexivity. Qed.
+
+Example toy_worker_g_ok :
+  toy_worker_g 10 [toy_st 2 0 []; toy_st 1 1 []] [100; 100] 6 4 [1; 2; 3; 4; 5; 6; 7] 7 3 [1%nat]
+  = Ok [1; 1; 2; 2; 3; 3; 4].
+Proof. vm_compute. reflexivity. Qed.
+
+(* 16 early-empty fp.read()s in a row are tolerated ... *)
+Example toy_worker_g_16_empty_reads :
+  toy_worker_g 40 [toy_st 0 0 []] [100] 3 100 [1; 2; 3] 3 100 (repeat 0%nat 16)
+  = Ok [1; 2; 3].
+Proof. vm_compute. reflexivity. Qed.
+
+(* ... 17 are not, although the data is there (unguarded loop: Ok) *)
+Example toy_worker_g_17_empty_reads :
+  toy_worker_g 40 [toy_st 0 0 []] [100] 3 100 [1; 2; 3] 3 100 (repeat 0%nat 17)
+  = Err EBad7z /\
+  toy_worker 40 [toy_st 0 0 []] [100] 3 100 [1; 2; 3] 3 100 (repeat 0%nat 17)
+  = Ok [1; 2; 3].
+Proof. split; vm_compute; reflexivity. Qed.
+
+(* rounds that return b"" but take input do not count: a lagging decoder fed
+   one byte per round stays silent for 20 rounds and the loop still succeeds *)
+Example toy_worker_g_silent_but_consuming :
+  toy_worker_g 60 [toy_st 1 20 []] [100] 24 1
+               [1; 2; 3; 4; 5; 6; 7; 8; 9; 10; 11; 12; 13; 14; 15; 16; 17; 18; 19; 20;
+                21; 22; 23; 24] 5 100 []
+  = Ok [1; 2; 3; 4; 5].
+Proof. vm_compute. reflexivity. Qed.
+
+Print Assumptions worker_g_len.
+Print Assumptions worker_g_next.
+Print Assumptions worker_g_first.
+Print Assumptions worker_g_terminates.
+Print Assumptions worker_g_terminates_18.
+Print Assumptions worker_g_agrees.
+Print Assumptions worker_g_agrees_max.
+Print Assumptions worker_g_detects_eof.
+Print Assumptions toy_worker_g_first.
+Print Assumptions toy_worker_g_detects.
